@@ -9,9 +9,15 @@ import (
 	"github.com/vapourismo/knx-go/knx/knxnet"
 )
 
+// Group layer, black box: the clients are built by NewGroupTunnel / NewGroupRouter on the redirected
+// sockets; what they send is read back from the bytes written. No unexported identifier of the
+// library is named in this file (the white-box instances are in zz_verif_c12_wb.go).
+
 func init() {
 	verifHarnesses["HarnessC12Out"] = HarnessC12Out
-	verifHarnesses["HarnessC12In"] = HarnessC12In
+	verifHarnesses["HarnessC12E2E"] = HarnessC12E2E
+	verifHarnesses["HarnessC12OutSeq"] = HarnessC12OutSeq
+	verifHarnesses["HarnessC12InBB"] = HarnessC12InBB
 }
 
 func c12Event(n int) GroupEvent {
@@ -58,6 +64,11 @@ func c12RouterLData(i int) *cemi.LData {
 
 // newBBGroupTunnel builds the group tunnel client through its real constructor (see zz_verif_tunnel.go).
 func newBBGroupTunnel() (GroupTunnel, *tunGW) {
+	gt, g, _ := newBBGroupTunnelCh()
+	return gt, g
+}
+
+func newBBGroupTunnelCh() (GroupTunnel, *tunGW, uint8) {
 	c := nondetU8()
 	g := newTunGW("udp", func(f knxnet.Service) []knxnet.Service {
 		switch r := f.(type) {
@@ -74,7 +85,7 @@ func newBBGroupTunnel() (GroupTunnel, *tunGW) {
 	if err != nil {
 		verifFail("env.tunnel_constructor")
 	}
-	return gt, g
+	return gt, g, c
 }
 
 // c12TunnelLData returns the L_Data part of every tunnelling request the gateway has seen.
@@ -100,29 +111,17 @@ func newGroupRouterEnv() GroupRouter {
 	return gr
 }
 
-// HarnessC12Out: a = {0 tunnel | 1 router, payload length}: one group event sent through the
-// group client leaves as exactly one L_Data.req / L_Data.ind frame with the prescribed fields.
+// HarnessC12Out: a = {1 group router | 2 group tunnel, payload length}: one group event sent through
+// the group client leaves as exactly one L_Data.ind / L_Data.req frame with the prescribed fields.
 func HarnessC12Out(a []int) {
 	n := a[1]
 	ev := c12Event(n)
-	sock := newVSock()
 	if a[0] == 2 {
-		// group tunnel built by the real NewGroupTunnel against the scripted gateway; the request is
-		// read back from the bytes written
 		gt, g := newBBGroupTunnel()
 		err := gt.Send(ev)
 		lds := c12TunnelLData(g)
 		verifAssert("C12.out.sent", err == nil && len(lds) == 1)
 		c12CheckLData(lds[0], ev, n, true)
-	} else if a[0] == 0 {
-		gt := GroupTunnel{Tunnel: &Tunnel{sock: sock, config: TunnelConfig{UseTCP: true}, channel: nondetU8()}}
-		err := gt.Send(ev)
-		verifAssert("C12.out.sent", err == nil && len(sock.log) == 1)
-		req, ok := sock.log[0].(*knxnet.TunnelReq)
-		verifAssert("C12.out.kind", ok)
-		m, ok := req.Payload.(*cemi.LDataReq)
-		verifAssert("C12.out.req", ok && m.MessageCode() == cemi.LDataReqCode)
-		c12CheckLData(&m.LData, ev, n, false)
 	} else {
 		gr := newGroupRouterEnv()
 		err := gr.Send(ev)
@@ -132,82 +131,35 @@ func HarnessC12Out(a []int) {
 	verifCover("C12.out.end")
 }
 
-// HarnessC12In: a = {cEMI kind as in C02 (0..10), payload length}: one message of the given kind
-// fed to the real serveGroupInbound goroutine; it surfaces exactly when it is an L_Data.ind to a
-// group address carrying a group read/response/write.
-func HarnessC12In(a []int) {
-	kind, n := a[0], a[1]
-	var msg cemi.Message
-	var ld *cemi.LData
-	mk := func() cemi.LData {
-		l := cemi.LData{Control1: cemi.ControlField1(nondetU8()), Control2: cemi.ControlField2(nondetU8()),
-			Source: cemi.IndividualAddr(nondetU16()), Destination: nondetU16()}
-		if kind <= 2 {
-			l.Data = &cemi.AppData{Numbered: nondetBool(), SeqNumber: nondetU8() & 15, Command: cemi.APCI(nondetU8() & 15), Data: nondetBytes(n)}
-		} else {
-			l.Data = &cemi.ControlData{Numbered: nondetBool(), SeqNumber: nondetU8() & 15, Command: nondetU8() & 3}
-		}
-		return l
-	}
-	switch kind {
-	case 0, 3:
-		m := &cemi.LDataReq{LData: mk()}
-		msg, ld = m, &m.LData
-	case 1, 4:
-		m := &cemi.LDataCon{LData: mk()}
-		msg, ld = m, &m.LData
-	case 2, 5:
-		m := &cemi.LDataInd{LData: mk()}
-		msg, ld = m, &m.LData
-	case 6:
-		msg = &cemi.LRawReq{LRaw: nondetBytes(n)}
-	case 7:
-		msg = &cemi.LRawCon{LRaw: nondetBytes(n)}
-	case 8:
-		msg = &cemi.LRawInd{LRaw: nondetBytes(n)}
-	case 9:
-		m := cemi.LBusmonInd(nondetBytes(n))
-		msg = &m
-	default:
-		msg = &cemi.UnsupportedMessage{Code: cemi.MessageCode(nondetU8()), Data: nondetBytes(n)}
-	}
-	in := make(chan cemi.Message)
-	out := make(chan GroupEvent)
-	go serveGroupInbound(in, out)
-	go func() {
-		in <- msg
-		close(in)
-	}()
-	ev, open := <-out
-	expect := false
-	if kind == 2 {
-		app := ld.Data.(*cemi.AppData)
-		expect = uint8(ld.Control2)&0x80 != 0 && app.Command < 3
-	}
-	verifObserve("surfaced", open)
-	if expect {
-		verifCover("C12.in.surfaced")
-		verifAssert("C12.in.surfaces", open)
-		app := ld.Data.(*cemi.AppData)
-		verifAssert("C12.in.fields", uint8(ev.Command) == uint8(app.Command) && ev.Source == ld.Source && uint16(ev.Destination) == ld.Destination)
-		verifAssert("C12.in.payload_len", len(ev.Data) == n)
-		for i := 0; i < n; i++ {
-			verifAssert("C12.in.payload", ev.Data[i] == app.Data[i])
-		}
-		_, again := <-out
-		verifAssert("C12.in.closes", !again)
+// HarnessC12OutSeq: a = {1 router | 2 tunnel, n1, n2}: two events sent one after the other through
+// the same client: the second frame must not depend on the first (shared template state).
+func HarnessC12OutSeq(a []int) {
+	ev1, ev2 := c12Event(a[1]), c12Event(a[2])
+	var lds [2]*cemi.LData
+	if a[0] == 2 {
+		gt, g := newBBGroupTunnel()
+		verifAssert("C12.out.sent", gt.Send(ev1) == nil && gt.Send(ev2) == nil)
+		got := c12TunnelLData(g)
+		verifAssert("C12.out.sent", len(got) == 2)
+		lds[0], lds[1] = got[0], got[1]
 	} else {
-		verifCover("C12.in.filtered")
-		verifAssert("C12.in.filtered", !open)
+		gr := newGroupRouterEnv()
+		verifAssert("C12.out.sent", gr.Send(ev1) == nil)
+		verifQuiesce()
+		verifAssert("C12.out.sent", gr.Send(ev2) == nil && verifNetWrites() == 2)
+		for i := range lds {
+			lds[i] = c12RouterLData(i)
+		}
 	}
+	c12CheckLData(lds[0], ev1, a[1], true)
+	c12CheckLData(lds[1], ev2, a[2], true)
+	verifCover("C12.outseq.end")
 }
 
-func init() {
-	verifHarnesses["HarnessC12E2E"] = HarnessC12E2E
-}
-
-// HarnessC12E2E: a = {payload length}: an event sent by one router client and received by
-// another, through the byte encoding, arrives unchanged up to the two documented exceptions.
+// HarnessC12E2E: a = {payload length}: an event sent by a group router client, taken from the bytes
+// it wrote and delivered as a routing indication to a group router client's socket, surfaces on the
+// group Inbound channel unchanged up to the two documented exceptions; closing the socket's channel
+// closes the group channel.
 func HarnessC12E2E(a []int) {
 	n := a[0]
 	ev := c12Event(n)
@@ -218,14 +170,12 @@ func HarnessC12E2E(a []int) {
 	verifAssert("C12.e2e.decodes", err == nil)
 	ind, ok := srv.(*knxnet.RoutingInd)
 	verifAssert("C12.e2e.kind", ok)
-	in := make(chan cemi.Message)
-	out := make(chan GroupEvent)
-	go serveGroupInbound(in, out)
+	in := knxnet.VerifInbound
 	go func() {
-		in <- ind.Payload
+		in <- ind
 		close(in)
 	}()
-	got, open := <-out
+	got, open := <-gr.Inbound()
 	verifAssert("C12.e2e.arrives", open)
 	verifAssert("C12.e2e.fields", got.Command == ev.Command && got.Source == ev.Source && got.Destination == ev.Destination)
 	if n == 0 {
@@ -237,42 +187,56 @@ func HarnessC12E2E(a []int) {
 			verifAssert("C12.e2e.payload", got.Data[i] == ev.Data[i])
 		}
 	}
+	_, again := <-gr.Inbound()
+	verifAssert("C12.e2e.group_channel_closes_with_the_client", !again)
 	verifObserve("len", len(got.Data))
 	verifCover("C12.e2e.end")
 }
 
-func init() {
-	verifHarnesses["HarnessC12OutSeq"] = HarnessC12OutSeq
-}
-
-// HarnessC12OutSeq: a = {0 tunnel | 1 router, n1, n2}: two events sent one after the other through
-// the same client: the second frame must not depend on the first (shared template state).
-func HarnessC12OutSeq(a []int) {
-	ev1, ev2 := c12Event(a[1]), c12Event(a[2])
-	sock := newVSock()
-	var lds [2]*cemi.LData
-	if a[0] == 2 {
-		gt, g := newBBGroupTunnel()
-		verifAssert("C12.out.sent", gt.Send(ev1) == nil && gt.Send(ev2) == nil)
-		got := c12TunnelLData(g)
-		verifAssert("C12.out.sent", len(got) == 2)
-		lds[0], lds[1] = got[0], got[1]
-	} else if a[0] == 0 {
-		gt := GroupTunnel{Tunnel: &Tunnel{sock: sock, config: TunnelConfig{UseTCP: true}, channel: nondetU8()}}
-		verifAssert("C12.out.sent", gt.Send(ev1) == nil && gt.Send(ev2) == nil && len(sock.log) == 2)
-		for i := range lds {
-			lds[i] = &sock.log[i].(*knxnet.TunnelReq).Payload.(*cemi.LDataReq).LData
+// HarnessC12InBB: a = {0 router | 1 tunnel, application code 0..15, group address flag, payload
+// length}: one L_Data.ind with symbolic fields enters through the socket of a client built by
+// NewGroupRouter / NewGroupTunnel; it surfaces on the group Inbound channel exactly when it targets
+// a group address and carries a group read/response/write.
+func HarnessC12InBB(a []int) {
+	n := a[3]
+	ld := cemi.LData{Control1: cemi.ControlField1(nondetU8()), Control2: cemi.ControlField2(nondetU8()&0x7F | uint8(a[2])<<7),
+		Source: cemi.IndividualAddr(nondetU16()), Destination: nondetU16(),
+		Data: &cemi.AppData{Numbered: nondetBool(), SeqNumber: nondetU8() & 15, Command: cemi.APCI(a[1]), Data: nondetBytes(n)}}
+	msg := &cemi.LDataInd{LData: ld}
+	var events <-chan GroupEvent
+	var feed func()
+	if a[0] == 0 {
+		gr := newGroupRouterEnv()
+		in := knxnet.VerifInbound
+		events = gr.Inbound()
+		feed = func() {
+			in <- &knxnet.RoutingInd{Payload: msg}
+			close(in)
 		}
 	} else {
-		gr := newGroupRouterEnv()
-		verifAssert("C12.out.sent", gr.Send(ev1) == nil)
-		verifQuiesce()
-		verifAssert("C12.out.sent", gr.Send(ev2) == nil && verifNetWrites() == 2)
-		for i := range lds {
-			lds[i] = c12RouterLData(i)
+		gt, g, c := newBBGroupTunnelCh()
+		events = gt.Inbound()
+		feed = func() {
+			g.in <- &knxnet.TunnelReq{Channel: c, SeqNumber: 0, Payload: msg}
+			close(g.in)
 		}
 	}
-	c12CheckLData(lds[0], ev1, a[1], a[0] >= 1)
-	c12CheckLData(lds[1], ev2, a[2], a[0] >= 1)
-	verifCover("C12.outseq.end")
+	go feed()
+	ev, open := <-events
+	expect := a[2] == 1 && a[1] < 3
+	if expect {
+		verifCover("C12.inbb.surfaced")
+		verifAssert("C12.in.surfaces", open)
+		verifAssert("C12.in.fields", int(ev.Command) == a[1] && ev.Source == ld.Source && uint16(ev.Destination) == ld.Destination)
+		verifAssert("C12.in.payload_len", len(ev.Data) == n)
+		app := ld.Data.(*cemi.AppData)
+		for i := 0; i < n; i++ {
+			verifAssert("C12.in.payload", ev.Data[i] == app.Data[i])
+		}
+		_, again := <-events
+		verifAssert("C12.in.closes", !again)
+	} else {
+		verifCover("C12.inbb.filtered")
+		verifAssert("C12.in.filtered", !open)
+	}
 }
